@@ -100,3 +100,58 @@ package getoptions
 //@   props C03 C08 C19
 //@   modifies
 //@   ensures unk.fresh {C08}: fresh(result) && result.Name == name && result.Unknown && result.Verbatim == verbatim && result.OptType == option.StringRepeatType
+
+// ---- the argument walk ------------------------------------------------------------------------
+//
+// Well-formedness of the definition (established by New/NewCommand/HelpCommand and the typed definers):
+// every node has its two tables, every table entry is a well-formed option record / a node.
+//@ spec func OptOK(o *option.Option) bool = RepOK(o)
+//@     && ((o.OptType == option.BoolType || o.OptType == option.IncrementType) ==> o.MinArgs == 0 && o.MaxArgs == 0)
+//@     && ((o.OptType == option.StringType || o.OptType == option.IntType || o.OptType == option.Float64Type) ==> o.MinArgs == 1 && o.MaxArgs == 1 && !o.IsOptional)
+//@     && ((o.OptType == option.StringOptionalType || o.OptType == option.IntOptionalType || o.OptType == option.Float64OptionalType) ==> o.MinArgs == 0 && o.MaxArgs == 1 && o.IsOptional)
+//@     && (IsMultiKind(o.OptType) ==> 1 <= o.MinArgs && o.MinArgs <= o.MaxArgs && !o.IsOptional)
+//@ spec func NodeOK(n *programTree) bool = n.ChildOptions != nil && n.ChildCommands != nil
+//@     && (forall k string :: (k in n.ChildOptions) ==> OptOK(n.ChildOptions[k]))
+//@     && (forall k string :: (k in n.ChildCommands) ==> n.ChildCommands[k] != nil)
+//@     && (forall i int :: 0 <= i && i < len(n.SuggestionFns) ==> n.SuggestionFns[i] != nil)
+//@ spec func TreeOK() bool = forall n *programTree :: allocated(n) && n != nil ==> NodeOK(n)
+//
+// User-supplied completion callbacks: opaque, assumed not to touch the parser's state.
+//@ func type ArgCompletionsFn(target, previousArgs, partialCompletion)
+//@   props C17 C19
+//@   modifies
+//@ end
+
+//@ func parseCLIArgs
+//@   props C19
+//@   requires parse.tree: tree != nil && TreeOK()
+//@   ensures parse.node {C03,C10}: result0 != nil && allocated(result0)
+//@   ensures parse.tree.kept: TreeOK()
+//@   loop ARGS_LOOP
+//@     modifies iterator.idx, programTree.ChildText, programTree.UnknownOptions, option.Option.Called, option.Option.UsedAlias, option.Option.MapKeysToLower,
+//@       cell(bool), cell(string), cell(int), cell(float64), cell([]string), cell([]int), cell([]float64), allmaps(map[string]string)
+//@     invariant it.ok: iterator != nil && iterator.data == &args && 0 - 1 <= iterator.idx && iterator.idx <= len(args)
+//@     invariant args.same: eqseq(args, old(args))
+//@     invariant node.ok: currentProgramNode != nil && allocated(currentProgramNode)
+//@     decreases len(args) - iterator.idx
+//@   loop "for k, v := range currentProgramNode.ChildOptions"
+//@     invariant comp.lastopt: (exists i int :: 0 <= i && i < len(completions) && completions[i] != "-") ==> lastOpt != nil
+//@   loop "for _, e := range lastOpt.SuggestedValues"@2
+//@     invariant comp.first: len(completions) >= 1
+//@   loop "for _, p := range optPair"
+//@     modifies iterator.idx, programTree.ChildText, programTree.UnknownOptions, option.Option.Called, option.Option.UsedAlias, option.Option.MapKeysToLower,
+//@       cell(bool), cell(string), cell(int), cell(float64), cell([]string), cell([]int), cell([]float64), allmaps(map[string]string)
+//@     invariant pairs.idx: 0 <= iterator.idx && iterator.idx < len(args) && old_loop(iterator.idx) <= iterator.idx
+//@     invariant pairs.args: eqseq(args, old(args))
+//@   loop "for ; i < cOpt.MinArgs; i++"
+//@     modifies iterator.idx, *cOpt.pBool, *cOpt.pString, *cOpt.pInt, *cOpt.pFloat64, *cOpt.pStringS, *cOpt.pIntS, *cOpt.pFloat64S, mapof(MapOf(cOpt))
+//@     invariant min.idx: 0 <= iterator.idx && iterator.idx < len(args) && old_loop(iterator.idx) <= iterator.idx
+//@     invariant min.opt: OptOK(cOpt) && 0 <= i
+//@     decreases cOpt.MinArgs - i
+//@   loop MAX_LOOP
+//@     modifies iterator.idx, *cOpt.pBool, *cOpt.pString, *cOpt.pInt, *cOpt.pFloat64, *cOpt.pStringS, *cOpt.pIntS, *cOpt.pFloat64S, mapof(MapOf(cOpt))
+//@     invariant max.idx: 0 <= iterator.idx && iterator.idx < len(args) && old_loop(iterator.idx) <= iterator.idx
+//@     invariant max.opt: OptOK(cOpt) && 0 <= i
+//@     decreases cOpt.MaxArgs - i
+//@   loop "for k, v := range currentProgramNode.ChildCommands"
+//@     invariant cmds.scanned: forall q string :: (q in $seen) ==> q != args[iterator.idx]
